@@ -329,6 +329,8 @@ def _key_split_rule(ctx, prog):
                     verdict = c0 < lo
                     why = (f"variable i receives split[i+{lo}], the carried key is split[{c0}]" if verdict else
                            f"split[{c0}] is carried to the next period AND handed to a variable")
+    if verdict is None and callee_name(d) == "builtins.dict.fromkeys" and len(d[2]) == 2:
+        verdict, why = False, f"every variable receives the same key ({show(d[2][1])[:40]}): draws of different variables are not independent"
     if verdict is None and not any(x == S for x in walk(d)):
         verdict, why = False, "the per-variable keys are not taken from this period's split"
     ctx.ob("KEY4:distinct-keys", verdict, where, why, lhs=d, rhs="pairwise different parts of one split")
